@@ -13,6 +13,7 @@
 //! * channel D, `serde_json::Value` as an intermediary that reorders keys.
 
 pub mod cases;
+pub mod types;
 pub mod io;
 pub mod tok;
 
@@ -137,11 +138,11 @@ fn sweep_presentations() -> Vec<Presentation> {
     let mut v = Vec::new();
     for kf in KEY_FORMS {
         for (order, alpha_pos) in [(0u8, 255u8), (1, 0), (2, 1)] {
-            v.push(Presentation { struct_as: StructAs::Map, key_form: kf, alpha_pos, order, size_hint: alpha_pos != 0, alpha_present: true, unknown_key_at: None, strict_option: order == 2, limit_to_declared_fields: false });
+            v.push(Presentation { struct_as: StructAs::Map, key_form: kf, alpha_pos, order, size_hint: alpha_pos != 0, alpha_present: true, unknown_key_at: None, strict_option: order == 2, unknown_key_kind: 0, honour_requested_len: false, limit_to_declared_fields: false });
         }
     }
     for hint in [true, false] {
-        v.push(Presentation { struct_as: StructAs::Seq, key_form: KeyForm::BorrowedStr, alpha_pos: 255, order: 0, size_hint: hint, alpha_present: true, unknown_key_at: None, strict_option: hint, limit_to_declared_fields: false });
+        v.push(Presentation { struct_as: StructAs::Seq, key_form: KeyForm::BorrowedStr, alpha_pos: 255, order: 0, size_hint: hint, alpha_present: true, unknown_key_at: None, strict_option: hint, unknown_key_kind: 0, honour_requested_len: !hint, limit_to_declared_fields: false });
     }
     v
 }
@@ -152,8 +153,20 @@ impl C20 {
         let mut sweep = Vec::new();
         let press = sweep_presentations();
         for (ci, c) in cases.iter().enumerate() {
-            // enough to cover every call of the longest conversation (struct of 3 + hue newtype + alpha)
-            for k in 0..14u16 {
+            // "every k": the number of data-model calls of the fault-free conversation is MEASURED (one dry run
+            // per case and presentation, under `catch`), so a conversation that grows by a call is still swept
+            // to its end; two more positions are added, which must not fire (the last `de` loop records that)
+            let simple: Vec<f64> = (0..c.nvals.max(1) + 1).map(|j| if scalar_of(c, j).starts_with('u') { (j + 1) as f64 } else { 0.25 * (j + 1) as f64 }).collect();
+            let dry = match catch(|| {
+                let peer = Peer::new(None);
+                let tok = (c.ops.record)(&simple, &peer).ok();
+                (tok, peer.calls.get())
+            }) {
+                Caught::Ok(x) => x,
+                _ => (None, 12),
+            };
+            let ser_calls = dry.1.min(60) as u16;
+            for k in 0..ser_calls + 2 {
                 sweep.push((ci, SweepItem::Ser { k }));
             }
             for p in press.iter() {
@@ -162,7 +175,17 @@ impl C20 {
                     continue; // non-struct shapes have no keys to vary
                 }
                 let _ = index_keys;
-                for k in 0..22u16 {
+                let de_calls = match (&dry.0, catch(|| {
+                    let peer = Peer::new(None);
+                    if let Some(tok) = &dry.0 {
+                        let _ = (c.ops.replay)(tok, p, &peer, &simple);
+                    }
+                    peer.calls.get()
+                })) {
+                    (Some(_), Caught::Ok(n)) => n.min(80) as u16,
+                    _ => 20,
+                };
+                for k in 0..de_calls + 2 {
                     sweep.push((ci, SweepItem::De { pres: p.clone(), k }));
                     if c.opt.is_some() && k < 16 && (p.order == 0) {
                         sweep.push((ci, SweepItem::Optional { pres: Presentation { alpha_present: k % 2 == 0, ..p.clone() }, k }));
@@ -271,7 +294,13 @@ fn raw_value(rng: &mut Rng, c: &CaseDesc, slot: usize) -> f64 {
 
 fn gen_vals(rng: &mut Rng, c: &CaseDesc, raw: bool) -> Vec<f64> {
     // user shapes mix f32 and f64 fields; every value used is exact in f32
-    (0..c.nvals.max(1)).map(|j| if raw { raw_value(rng, c, j) } else { text_safe_value(rng, c, j) }).collect()
+    let mut v: Vec<f64> = (0..c.nvals.max(1)).map(|j| if raw { raw_value(rng, c, j) } else { text_safe_value(rng, c, j) }).collect();
+    if let Some(j) = c.skip_zero_slot {
+        if rng.chance(1, 2) {
+            v[j] = 0.0;
+        }
+    }
+    v
 }
 
 fn round_to_scalar(c: &CaseDesc, slot: usize, v: f64) -> f64 {
@@ -322,6 +351,8 @@ fn gen_presentation(rng: &mut Rng, c: &CaseDesc) -> Presentation {
         alpha_present: !has_alpha || rng.chance(5, 6),
         unknown_key_at: if rng.chance(1, 6) { Some(rng.below(5) as u8) } else { None },
         strict_option: rng.chance(1, 2),
+        unknown_key_kind: if rng.chance(1, 2) { 0 } else { 1 + rng.below(5) as u8 },
+        honour_requested_len: rng.chance(1, 4),
         limit_to_declared_fields: false,
     }
 }
@@ -370,9 +401,9 @@ impl World for C20 {
                 let pres = gen_presentation(rng, c);
                 let (sf, df) = if faults {
                     if rng.chance(1, 3) {
-                        (Some(rng.below(14) as u16), None)
+                        (Some(rng.below(20) as u16), None)
                     } else {
-                        (None, Some(rng.below(24) as u16))
+                        (None, Some(rng.below(34) as u16))
                     }
                 } else {
                     (None, None)
@@ -504,6 +535,8 @@ impl World for C20 {
                         Presentation { size_hint: true, ..pres.clone() },
                         Presentation { struct_as: StructAs::Map, ..pres.clone() },
                         Presentation { strict_option: false, ..pres.clone() },
+                        Presentation { unknown_key_kind: 0, ..pres.clone() },
+                        Presentation { honour_requested_len: false, ..pres.clone() },
                     ] {
                         if p != *pres {
                             out.push(with(Kind::Sim { pres: p, ser_fail: *ser_fail, de_fail: *de_fail }));
@@ -568,15 +601,23 @@ impl World for C20 {
             #[serde(flatten)]
             color: Srgba<f32>,
         }
-        let flat = Flat { name: "x".into(), color: Srgba::new(0.25, 0.5, 0.75, 0.5) };
-        let flatten = match serde_json::to_string(&flat) {
-            Ok(text) => match serde_json::from_str::<Flat>(&text) {
-                Ok(back) => format!("{text} -> round trip ok ({})", back.color == flat.color),
-                Err(e) => format!("{text} -> Err({e})"),
-            },
-            Err(e) => format!("serialization failed: {e}"),
+        // not judged, so it must not be able to end the check either: everything runs under `catch`
+        let observed = |r: Caught<String>| match r {
+            Caught::Ok(s) => s,
+            Caught::Injected(_) => "injected panic".to_string(),
+            Caught::Foreign(m) => format!("panicked: {m}"),
         };
-        let limited = match self.case("Alpha<Rgb<f32>>") {
+        let flatten = observed(catch(|| {
+            let flat = Flat { name: "x".into(), color: Srgba::new(0.25, 0.5, 0.75, 0.5) };
+            match serde_json::to_string(&flat) {
+                Ok(text) => match serde_json::from_str::<Flat>(&text) {
+                    Ok(back) => format!("{text} -> round trip ok ({})", back.color == flat.color),
+                    Err(e) => format!("{text} -> Err({e})"),
+                },
+                Err(e) => format!("serialization failed: {e}"),
+            }
+        }));
+        let limited = observed(catch(|| match self.case("Alpha<Rgb<f32>>") {
             Some(c) => {
                 let vals = [0.25, 0.5, 0.75, 0.5];
                 let peer = Peer::new(None);
@@ -592,7 +633,7 @@ impl World for C20 {
                 }
             }
             None => "case not found".into(),
-        };
+        }));
         serde_json::json!({
             "observed_not_judged": {
                 "serde_flatten_of_Srgba_in_a_user_struct_through_serde_json": flatten,
@@ -639,6 +680,8 @@ impl World for C20 {
                 "optional-alpha-defaulted-ron",
                 "optional-alpha-present-ron",
                 "raw-hue-angles",
+                "skip_field-forwarded",
+                "near-miss-of-the-alpha-key-not-taken-for-alpha",
             ],
             expected_faults: vec!["peer:error@call-k(ser)", "peer:error@call-k(de)", "io:short-read", "io:short-write", "io:EINTR", "io:error@byte-k", "io:EOF@byte-k", "io:write-zero"],
             time_note: "palette has no clock; simulated time is reported as steps_executed (= data-model calls and I/O calls)",
@@ -647,6 +690,17 @@ impl World for C20 {
 }
 
 // ------------------------------------------------------------------ oracles
+
+/// The color's own fields that are really sent for these values, with their value slots (a
+/// `skip_serializing_if` field is left out when it is zero).
+fn sent_fields(c: &CaseDesc, vals: &[f64]) -> Vec<(&'static str, usize)> {
+    c.fields
+        .iter()
+        .enumerate()
+        .filter(|(j, _)| !(c.skip_zero_slot == Some(*j) && vals.get(*j).copied() == Some(0.0)))
+        .map(|(j, k)| (*k, j))
+        .collect()
+}
 
 fn expected_bits(c: &CaseDesc, vals: &[f64]) -> Vec<u64> {
     vals[..c.nvals].iter().enumerate().map(|(j, v)| round_to_scalar(c, j, *v).to_bits()).collect()
@@ -693,9 +747,11 @@ fn judge_shape(ctx: &mut Ctx<'_>, c: &CaseDesc, inner: Option<&CaseDesc>, tok: &
     // own shape
     match (c.shape, c.wrapper) {
         (Shape::Hue, _) => {
-            let ok = matches!(tok, Tok::Newtype { name, inner } if name == c.ser_name && inner.is_scalar());
+            // "a bare number": a newtype struct around one number (which self-describing formats write as the
+            // number) or, with `#[serde(transparent)]`, the number itself
+            let ok = tok.is_scalar() || matches!(tok, Tok::Newtype { inner, .. } if inner.is_scalar());
             if !ok {
-                return bad(ctx, "a hue must serialize as a newtype struct around one number".into());
+                return bad(ctx, "a hue must serialize as one bare number".into());
             }
         }
         (Shape::Struct, _) => {
@@ -705,9 +761,13 @@ fn judge_shape(ctx: &mut Ctx<'_>, c: &CaseDesc, inner: Option<&CaseDesc>, tok: &
             if name != c.ser_name {
                 return bad(ctx, format!("container name {name:?}, expected {:?}", c.ser_name));
             }
-            let mut want: Vec<&str> = c.fields.to_vec();
+            let sent = sent_fields(c, vals);
+            let mut want: Vec<&str> = sent.iter().map(|(k, _)| *k).collect();
             if c.wrapper != Wrapper::None {
                 want.push("alpha");
+            }
+            if sent.len() < c.fields.len() {
+                ctx.probe("skip_field-forwarded");
             }
             let got: Vec<&str> = fields.iter().map(|(k, _)| k.as_str()).collect();
             if got != want {
@@ -716,72 +776,31 @@ fn judge_shape(ctx: &mut Ctx<'_>, c: &CaseDesc, inner: Option<&CaseDesc>, tok: &
             if *declared_len != fields.len() {
                 return bad(ctx, format!("declared length {declared_len} but {} fields were sent", fields.len()));
             }
-            for (j, (k, v)) in fields.iter().enumerate() {
+            for (pos, (k, v)) in fields.iter().enumerate() {
+                let j = sent.get(pos).map(|(_, slot)| *slot).unwrap_or(usize::MAX);
                 let is_hue = c.hue_slot == Some(j) && k != "alpha";
-                let ok = if is_hue { matches!(v, Tok::Newtype { inner, .. } if inner.is_scalar()) } else { v.is_scalar() };
+                let ok = if is_hue { v.is_scalar() || matches!(v, Tok::Newtype { inner, .. } if inner.is_scalar()) } else { v.is_scalar() };
                 if !ok {
                     return bad(ctx, format!("field {k:?} is not a bare number"));
                 }
             }
         }
-        (Shape::TupleStruct, w) => {
-            let Tok::TupleStruct { name, declared_len, fields } = tok else {
-                return bad(ctx, "expected a tuple struct".into());
-            };
-            let n = c.nvals;
-            if name != c.ser_name || fields.len() != n || *declared_len != n {
-                return bad(ctx, format!("tuple struct {name:?} declares {declared_len}, sends {}, expected {n} ({w:?})", fields.len()));
+        // The user-defined shapes that are not structs with named fields: HOW palette folds the alpha into a
+        // tuple struct, a newtype, a unit struct, a tuple, the unit type or a sequence (today: one more element;
+        // a newtype becomes a tuple struct of two; a unit struct becomes a newtype around alpha) is not something
+        // the property states. What it states for them is the round trip, which the other oracles judge. Here
+        // only: the numbers that travel are the color's own numbers, in order, followed by exactly one more for
+        // alpha, and a declared length (where the token has one) equals what was sent.
+        (Shape::TupleStruct | Shape::Newtype | Shape::Unit | Shape::Tuple | Shape::UnitType | Shape::Seq, _) => {
+            let mut leaves = Vec::new();
+            tok.leaves(&mut leaves);
+            if leaves.len() != c.nvals {
+                return bad(ctx, format!("{} numbers travel, expected {} (the color's own{})", leaves.len(), c.nvals, if c.wrapper != Wrapper::None { " plus alpha" } else { "" }));
             }
-        }
-        (Shape::Newtype, Wrapper::None) => {
-            if !matches!(tok, Tok::Newtype { name, .. } if name == c.ser_name) {
-                return bad(ctx, "expected a newtype struct".into());
-            }
-        }
-        (Shape::Newtype, _) => {
-            let ok = matches!(tok, Tok::TupleStruct { name, declared_len: 2, fields } if name == c.ser_name && fields.len() == 2);
-            if !ok {
-                return bad(ctx, "a newtype color with alpha must become a tuple struct of two".into());
-            }
-        }
-        (Shape::Unit, Wrapper::None) => {
-            if !matches!(tok, Tok::UnitStruct { name } if name == c.ser_name) {
-                return bad(ctx, "expected a unit struct".into());
-            }
-        }
-        (Shape::Unit, _) => {
-            let ok = matches!(tok, Tok::Newtype { name, inner } if name == c.ser_name && inner.is_scalar());
-            if !ok {
-                return bad(ctx, "a unit color with alpha must become a newtype struct around alpha".into());
-            }
-        }
-        (Shape::Tuple, w) => {
-            let Tok::Tuple { declared_len, items } = tok else {
-                return bad(ctx, "expected a tuple".into());
-            };
-            let n = c.nvals;
-            if items.len() != n || *declared_len != n || !items.iter().all(|t| t.is_scalar()) {
-                return bad(ctx, format!("tuple declares {declared_len}, sends {}, expected {n} numbers ({w:?})", items.len()));
-            }
-        }
-        (Shape::Seq, w) => {
-            let Tok::Seq { declared_len, items } = tok else {
-                return bad(ctx, "expected a sequence".into());
-            };
-            let n = c.nvals;
-            if items.len() != n || *declared_len != Some(n) || !items.iter().all(|t| t.is_scalar()) {
-                return bad(ctx, format!("sequence declares {declared_len:?}, sends {}, expected {n} numbers ({w:?})", items.len()));
-            }
-        }
-        (Shape::UnitType, Wrapper::None) => {
-            if !matches!(tok, Tok::Unit) {
-                return bad(ctx, "expected the unit value".into());
-            }
-        }
-        (Shape::UnitType, _) => {
-            let ok = matches!(tok, Tok::Tuple { declared_len: 1, items } if items.len() == 1 && items[0].is_scalar());
-            if !ok {
-                return bad(ctx, "the unit type with alpha must become a tuple of one (alpha)".into());
+            if let Some((declared, sent)) = tok.declared_vs_sent() {
+                if declared != sent {
+                    return bad(ctx, format!("declared length {declared} but {sent} elements were sent"));
+                }
             }
         }
     }
@@ -793,13 +812,14 @@ fn judge_shape(ctx: &mut Ctx<'_>, c: &CaseDesc, inner: Option<&CaseDesc>, tok: &
                 (Tok::Struct { name: n1, fields: f1, .. }, Tok::Struct { name: n2, fields: f2, declared_len: d2, .. }) => {
                     n1 == n2 && f1.len() == f2.len() + 1 && f1[..f2.len()] == f2[..] && *d2 == f2.len()
                 }
-                (Tok::TupleStruct { name: n1, fields: f1, .. }, Tok::TupleStruct { name: n2, fields: f2, .. }) => n1 == n2 && f1.len() == f2.len() + 1 && f1[..f2.len()] == f2[..],
-                (Tok::TupleStruct { name: n1, fields: f1, .. }, Tok::Newtype { name: n2, inner }) => n1 == n2 && f1.len() == 2 && f1[0] == **inner,
-                (Tok::Newtype { name: n1, .. }, Tok::UnitStruct { name: n2 }) => n1 == n2,
-                (Tok::Tuple { items: f1, .. }, Tok::Tuple { items: f2, .. }) => f1.len() == f2.len() + 1 && f1[..f2.len()] == f2[..],
-                (Tok::Tuple { items: f1, .. }, Tok::Unit) => f1.len() == 1,
-                (Tok::Seq { items: f1, .. }, Tok::Seq { items: f2, .. }) => f1.len() == f2.len() + 1 && f1[..f2.len()] == f2[..],
-                _ => false,
+                (Tok::Struct { .. }, _) | (_, Tok::Struct { .. }) => false,
+                // the other shapes: the plain color's numbers, then one more
+                _ => {
+                    let (mut l1, mut l2) = (Vec::new(), Vec::new());
+                    tok.leaves(&mut l1);
+                    itok.leaves(&mut l2);
+                    l1.len() == l2.len() + 1 && l1[..l2.len()] == l2[..]
+                }
             };
             if !same_prefix {
                 return bad(ctx, format!("the wrapped color's tree is not the plain color's tree plus alpha; plain: {itok:?}"));
@@ -975,6 +995,10 @@ fn execute(c: &'static CaseDesc, inner: Option<&'static CaseDesc>, vals: &[f64],
             }
             // ---- deserializing side
             let mut pres = pres.clone();
+            if sent_fields(c, vals).len() < c.fields.len() {
+                // a field was left out of the output: such a document only exists in keyed form (positions would shift)
+                pres.struct_as = StructAs::Map;
+            }
             if !has_alpha || c.shape == Shape::Unit {
                 // a unit color with alpha *is* its alpha: there is no document without it
                 pres.alpha_present = true;
@@ -1007,6 +1031,9 @@ fn execute(c: &'static CaseDesc, inner: Option<&'static CaseDesc>, vals: &[f64],
                     }
                     if pres.unknown_key_at.is_some() && pres.struct_as == StructAs::Map && c.shape == Shape::Struct && !index_keys {
                         ctx.probe("unknown-key-ignored");
+                        if pres.unknown_key_kind % 6 != 0 {
+                            ctx.probe("near-miss-of-the-alpha-key-not-taken-for-alpha");
+                        }
                     }
                 }
                 Err(e) => {
@@ -1021,9 +1048,17 @@ fn execute(c: &'static CaseDesc, inner: Option<&'static CaseDesc>, vals: &[f64],
                         }
                         return;
                     }
-                    if pres.unknown_key_at.is_some() && pres.struct_as == StructAs::Map && c.shape == Shape::Struct && !index_keys {
+                    if pres.unknown_key_at.is_some() && pres.struct_as == StructAs::Map && c.shape == Shape::Struct && (!index_keys || pres.unknown_key_kind % 6 != 0) {
                         // the document carries a key palette never writes; ignoring it (today) and rejecting it are both fine
                         ctx.probe("unknown-key-rejected");
+                        return;
+                    }
+                    let string_key = matches!(pres.key_form, KeyForm::BorrowedStr | KeyForm::TransientStr | KeyForm::OwnedString);
+                    if pres.struct_as == StructAs::Map && c.shape == Shape::Struct && !string_key {
+                        // keys as bytes or as field indices: what compact self-describing formats do, not JSON or
+                        // RON. The adapter implements them today; the property does not ask for it. A rejection is
+                        // fine, an accepted document must still yield the right color (judged above).
+                        ctx.probe("non-string-key-form-rejected");
                         return;
                     }
                     ctx.fail("deserialize-failed", &key, format!("{}: a healthy peer presenting {:?} was rejected: {}", c.name, pres, e.0));
@@ -1041,6 +1076,9 @@ fn execute(c: &'static CaseDesc, inner: Option<&'static CaseDesc>, vals: &[f64],
             let mut pres = pres.clone();
             if c.shape == Shape::Unit {
                 pres.alpha_present = true;
+            }
+            if sent_fields(c, vals).len() < c.fields.len() {
+                pres.struct_as = StructAs::Map;
             }
             let pres = &pres;
             let mut expect = vals.to_vec();
@@ -1068,8 +1106,10 @@ fn execute(c: &'static CaseDesc, inner: Option<&'static CaseDesc>, vals: &[f64],
                 Err(e) => {
                     ctx.checked();
                     let index_keys = matches!(pres.key_form, KeyForm::U64Index | KeyForm::U8Index | KeyForm::U32Index);
-                    let unknown_key = pres.unknown_key_at.is_some() && pres.struct_as == StructAs::Map && c.shape == Shape::Struct && !index_keys;
-                    if !peer.fired.get() && c.shape != Shape::Unit && !unknown_key {
+                    let unknown_key = pres.unknown_key_at.is_some() && pres.struct_as == StructAs::Map && c.shape == Shape::Struct && (!index_keys || pres.unknown_key_kind % 6 != 0);
+                    let string_key = matches!(pres.key_form, KeyForm::BorrowedStr | KeyForm::TransientStr | KeyForm::OwnedString);
+                    let non_string_key = pres.struct_as == StructAs::Map && c.shape == Shape::Struct && !string_key;
+                    if !peer.fired.get() && c.shape != Shape::Unit && !unknown_key && !non_string_key {
                         ctx.fail("optional-alpha-failed", &key, format!("{}: optional-alpha deserialization from a healthy peer ({:?}) failed: {}", c.name, pres, e.0));
                     }
                 }
@@ -1140,7 +1180,14 @@ fn execute(c: &'static CaseDesc, inner: Option<&'static CaseDesc>, vals: &[f64],
                     return;
                 }
             };
-            if tok != Tok::U32(uint as u32) || peer.fired.get() {
+            let as_unsigned = match &tok {
+                Tok::U8(v) => Some(*v as u64),
+                Tok::U16(v) => Some(*v as u64),
+                Tok::U32(v) => Some(*v as u64),
+                Tok::U64(v) => Some(*v),
+                _ => None,
+            };
+            if as_unsigned != Some(uint) || peer.fired.get() {
                 ctx.fail("as_uint-shape", &key, format!("{}: serialize_as_uint produced {tok:?}, cast::into_uint gives {uint}", p.name));
                 return;
             }
@@ -1528,16 +1575,20 @@ fn note_presentation(ctx: &mut Ctx<'_>, c: &CaseDesc, pres: &Presentation) {
 
 /// What is wrong with the JSON text of a serialized color, if anything.
 fn json_shape_problem(c: &CaseDesc, vals: &[f64], text: &str) -> Option<String> {
+    // the text is pinned only where the property describes the shape: named-field colors (own fields, then
+    // `alpha`, at one level, no metadata) and hues (a bare number); see `judge_shape` for the other shapes
+    if !matches!(c.shape, Shape::Struct | Shape::Hue) {
+        return None;
+    }
     let nums: Vec<String> = vals[..c.nvals].iter().enumerate().map(|(j, v)| fmt_scalar(c, j, *v)).collect();
     let has_alpha = c.wrapper != Wrapper::None;
     let want = match c.shape {
         Shape::Hue => nums[0].clone(),
         Shape::Struct => {
-            let mut keys: Vec<&str> = c.fields.to_vec();
+            let mut body: Vec<String> = sent_fields(c, vals).iter().map(|(k, slot)| format!("\"{k}\":{}", nums[*slot])).collect();
             if has_alpha {
-                keys.push("alpha");
+                body.push(format!("\"alpha\":{}", nums[c.nvals - 1]));
             }
-            let body: Vec<String> = keys.iter().zip(nums.iter()).map(|(k, v)| format!("\"{k}\":{v}")).collect();
             format!("{{{}}}", body.join(","))
         }
         Shape::TupleStruct | Shape::Tuple | Shape::Seq => format!("[{}]", nums.join(",")),
